@@ -141,6 +141,14 @@ Definition accepted_by_ticket (cfg : scfg) (h : hello blob) (now : Z) (k : Z) (s
   exists b p, h_ticket h = Some b /\ In k (sv_keys cfg) /\ open k b = Some p /\
               now <= p_created p + sv_life cfg /\ s = sess_of_payload p (h_sid h).
 
+(* ticket under a current key within lifetime AND the same session (master secret, suite) valid in
+   the cache under the hello's session_id: the cached object s is used *)
+Definition accepted_by_both (cfg : scfg) (st : list centry) (h : hello blob) (now : Z) (k : Z) (s : sess) : Prop :=
+  (exists b p, h_ticket h = Some b /\ In k (sv_keys cfg) /\ open k b = Some p /\
+               now <= p_created p + sv_life cfg /\ p_ms p = s_ms s /\ p_suite p = s_suite s) /\
+  sv_usecache cfg = true /\ h_sid h <> 0 /\ s_sid s = h_sid h /\
+  exists e, In e st /\ ce_sess e = s /\ ce_res e = true /\ now - ce_time e <= sv_maxage cfg.
+
 Lemma server_try_resume_sound cfg st acc (h : hello blob) now st' s o :
   times_sorted st ->
   server_try_resume blob open cfg st acc h now = (st', SResume s o) ->
@@ -148,6 +156,7 @@ Lemma server_try_resume_sound cfg st acc (h : hello blob) now st' s o :
   match o with
   | ByCache => accepted_by_cache cfg st h now s
   | ByTicket k => accepted_by_ticket cfg h now k s
+  | ByBoth k => accepted_by_both cfg st h now k s
   | ByPsk _ => False
   end.
 Proof.
@@ -157,11 +166,30 @@ Proof.
   destruct (h_ticket h) as [b|] eqn:HT.
   - (* a ticket was sent: only the ticket path *)
     destruct (ticket_to_session blob open cfg now (h_sid h) b) as [[k s0]|] eqn:T.
-    + destruct (zmem (s_suite s0) acc) eqn:A; cbn [negb]; [|intros H; discriminate].
-      intros H. injection H as _ H. apply consistency_resume in H. destruct H as [-> [-> Hc]].
-      split; [exact A|]. split; [exact Hc|].
-      apply ticket_to_session_some in T. destruct T as [p [K [O [Lf Eq]]]].
-      exists b, p. repeat split; assumption.
+    + apply ticket_to_session_some in T. destruct T as [p [K [O [Lf Eq]]]].
+      destruct (sv_usecache cfg && nz (h_sid h)) eqn:U.
+      * destruct (cache_get cfg now (h_sid h) st) as [st1 r] eqn:CG.
+        destruct r as [c|].
+        -- destruct ((s_ms c =? s_ms s0) && (s_suite c =? s_suite s0)) eqn:Same.
+           ++ destruct (zmem (s_suite c) acc) eqn:A; cbn [negb]; [|intros H; discriminate].
+              intros H. injection H as _ H. apply consistency_resume in H. destruct H as [-> [-> Hc]].
+              split; [exact A|]. split; [exact Hc|].
+              apply cache_get_some in CG. destruct CG as [-> [e [I [Es [R [Sid Nz]]]]]].
+              apply andb_true_iff in U. destruct U as [U1 U2].
+              apply andb_true_iff in Same. destruct Same as [S1 S2]. apply Z.eqb_eq in S1, S2.
+              subst s0. cbn [s_ms s_suite sess_of_payload] in S1, S2.
+              split; [exists b, p; repeat split; try assumption; congruence|].
+              repeat split; try assumption.
+              exists e. repeat split; try assumption; [eapply purge_incl; exact I|eapply purge_young; eassumption].
+           ++ destruct (zmem (s_suite s0) acc) eqn:A; cbn [negb]; [|intros H; discriminate].
+              intros H. injection H as _ H. apply consistency_resume in H. destruct H as [-> [-> Hc]].
+              split; [exact A|]. split; [exact Hc|]. exists b, p. repeat split; assumption.
+        -- destruct (zmem (s_suite s0) acc) eqn:A; cbn [negb]; [|intros H; discriminate].
+           intros H. injection H as _ H. apply consistency_resume in H. destruct H as [-> [-> Hc]].
+           split; [exact A|]. split; [exact Hc|]. exists b, p. repeat split; assumption.
+      * destruct (zmem (s_suite s0) acc) eqn:A; cbn [negb]; [|intros H; discriminate].
+        intros H. injection H as _ H. apply consistency_resume in H. destruct H as [-> [-> Hc]].
+        split; [exact A|]. split; [exact Hc|]. exists b, p. repeat split; assumption.
     + cbn [negb andb]. intros H. discriminate.
   - (* no ticket: the cache *)
     cbn [negb andb].
